@@ -1,4 +1,5 @@
 import SekaiProofs.Lemmas.Layer2LP
+import Sekai.Model.Layer2Oper
 /-! # C20 — Layer-2 dApp bonds are escrowed one-to-one; the LP pool gives no free money
 
 Model: `Sekai/Model/Layer2.lean` (mirrors `x/layer2` as coded; tied to the Go code by `harness/c20.go`, which makes the
@@ -421,5 +422,141 @@ example : (match kapply sLaunched (.swap 2 A 10000000000000000 ukex 50000) with
        | _ => none)
     | _ => none) = some (1, 49500) ∧
     (1000000 : Int) * (swapMath 1000000 20 50000 10000000000000000).1 ≤ 50000 * 20 := by decide
+
+/-! ## bonded verifiers: what comes back is what was locked (`Sekai.Layer2.joinVerifier / exitDapp / resetSession`) -/
+
+/-- what the refund loop owes user `u`: the recorded bonds of its exiting operators -/
+def owedTo (u : Nat) : List Oper → Int
+  | [] => 0
+  | o :: rest => (if o.status = 3 ∧ 0 < o.bonded ∧ o.user = u then o.bonded else 0) + owedTo u rest
+
+def owedAll : List Oper → Int
+  | [] => 0
+  | o :: rest => (if o.status = 3 ∧ 0 < o.bonded then o.bonded else 0) + owedAll rest
+
+/-- **the refund pays the RECORD**: after the refund loop every user holds its LP balance plus exactly the bonds recorded
+on its exiting operators, the module holds that much less, and no other denomination moves - whatever the dApp's bond, LP
+supply or pool look like by then -/
+theorem refund_pays_recorded (lp : Bytes) (l : List Oper) (b b' : Bank) (h : refundExiting b lp l = some b') :
+    (∀ u, b'.bal (.user u) lp = b.bal (.user u) lp + owedTo u l) ∧
+    b'.bal .l2 lp = b.bal .l2 lp - owedAll l ∧
+    (∀ a d, d ≠ lp → b'.bal a d = b.bal a d) ∧ b'.supply = b.supply := by
+  induction l generalizing b with
+  | nil =>
+    simp only [refundExiting, Option.some.injEq] at h
+    subst h
+    exact ⟨fun u => by simp [owedTo], by simp [owedAll], fun _ _ _ => rfl, rfl⟩
+  | cons o rest ih =>
+    unfold refundExiting at h
+    by_cases hc : o.status = 3 ∧ 0 < o.bonded
+    · rw [if_pos hc] at h
+      cases hs : b.send .l2 (.user o.user) lp o.bonded with
+      | none => rw [hs] at h; cases h
+      | some b1 =>
+        rw [hs] at h
+        obtain ⟨i1, i2, i3, i4⟩ := ih b1 h
+        obtain ⟨s1, s2, s3⟩ := send_bal_src hs (by intro e; cases e)
+        refine ⟨?_, ?_, ?_, ?_⟩
+        · intro u
+          rw [i1 u]
+          by_cases hu : o.user = u
+          · subst hu
+            rw [s2]
+            simp only [owedTo, hc.1, hc.2, and_self, if_true]
+            omega
+          · have : b1.bal (.user u) lp = b.bal (.user u) lp :=
+              s3 (.user u) (by intro e; cases e) (by intro e; cases e; exact hu rfl)
+            rw [this]
+            simp only [owedTo, hu, and_false, if_false]
+            omega
+        · rw [i2, s1]
+          simp only [owedAll, hc.1, hc.2, and_self, if_true]
+          omega
+        · intro a d hd
+          rw [i3 a d hd]
+          exact send_other_denom hs a d hd
+        · rw [i4]; exact (send_supply hs).1
+    · rw [if_neg hc] at h
+      obtain ⟨i1, i2, i3, i4⟩ := ih b h
+      refine ⟨?_, ?_, i3, i4⟩
+      · intro u
+        rw [i1 u]
+        have : (if o.status = 3 ∧ 0 < o.bonded ∧ o.user = u then o.bonded else 0) = 0 := by
+          rw [if_neg]; intro hh; exact hc ⟨hh.1, hh.2.1⟩
+        simp only [owedTo, this]; omega
+      · rw [i2]
+        simp only [owedAll, if_neg hc]; omega
+
+/-- **joining locks what is recorded**: a successful `MsgJoinDappVerifierWithBond` records the amount that left the
+account (the lock computed from the dApp as it is NOW) and moves exactly that amount to the module -/
+theorem join_locks_recorded (s s' : St) (ops ops' : List Oper) (u : Nat) (name : Bytes) (vbond : Dec.D)
+    (h : joinVerifier s ops u name vbond = .ok (s', ops')) :
+    ∃ d o, findDapp s.dapps name = some d ∧ d.enableBondVerifiers = true ∧
+      findOper ops' name u = some o ∧ o.verifier = true ∧ o.bonded = verifierLp d vbond ∧ 0 ≤ o.bonded ∧
+      s'.bank.bal (.user u) (lpOf d.denom) = s.bank.bal (.user u) (lpOf d.denom) - o.bonded ∧
+      s'.bank.bal .l2 (lpOf d.denom) = s.bank.bal .l2 (lpOf d.denom) + o.bonded ∧ s'.dapps = s.dapps := by
+  unfold joinVerifier at h
+  cases hd : findDapp s.dapps name with
+  | none => rw [hd] at h; cases h
+  | some d =>
+    rw [hd] at h
+    simp only at h
+    by_cases he : d.enableBondVerifiers = false
+    · rw [if_pos he] at h; cases h
+    · rw [if_neg he] at h
+      by_cases ha : alreadyVerifier ops name u = true
+      · rw [if_pos ha] at h; cases h
+      · rw [if_neg ha] at h
+        by_cases hneg : verifierLp d vbond < 0
+        · rw [if_pos hneg] at h; cases h
+        · rw [if_neg hneg] at h
+          cases hl : lockLp s.bank u (lpOf d.denom) (verifierLp d vbond) with
+          | none => rw [hl] at h; cases h
+          | some b =>
+            rw [hl] at h
+            simp only [Except.ok.injEq, Prod.mk.injEq] at h
+            obtain ⟨rfl, rfl⟩ := h
+            have hrec : (joinRecord ops name u (verifierLp d vbond)).dapp = name ∧
+                (joinRecord ops name u (verifierLp d vbond)).user = u ∧
+                (joinRecord ops name u (verifierLp d vbond)).verifier = true ∧
+                (joinRecord ops name u (verifierLp d vbond)).bonded = verifierLp d vbond := by
+              unfold joinRecord
+              cases hp : findOper ops name u with
+              | none => exact ⟨rfl, rfl, rfl, rfl⟩
+              | some p =>
+                have hpd : p.dapp = name ∧ p.user = u := by
+                  have := List.find?_some hp
+                  simpa using this
+                exact ⟨hpd.1, hpd.2, rfl, rfl⟩
+            have hfind : findOper (setOper ops (joinRecord ops name u (verifierLp d vbond))) name u =
+                some (joinRecord ops name u (verifierLp d vbond)) := by
+              simp [findOper, setOper, hrec.1, hrec.2.1]
+            have hen : d.enableBondVerifiers = true := by cases hb : d.enableBondVerifiers <;> simp_all
+            refine ⟨d, _, rfl, hen, hfind, hrec.2.2.1, hrec.2.2.2, by rw [hrec.2.2.2]; omega, ?_, ?_, rfl⟩
+            · rw [hrec.2.2.2]
+              unfold lockLp at hl
+              by_cases hpos : 0 < verifierLp d vbond
+              · rw [if_pos hpos] at hl
+                exact (send_bal_src hl (by intro e; cases e)).1
+              · rw [if_neg hpos] at hl; cases hl
+                have : verifierLp d vbond = 0 := by omega
+                rw [this]; simp
+            · rw [hrec.2.2.2]
+              unfold lockLp at hl
+              by_cases hpos : 0 < verifierLp d vbond
+              · rw [if_pos hpos] at hl
+                exact (send_bal_src hl (by intro e; cases e)).2.1
+              · rw [if_neg hpos] at hl; cases hl
+                have : verifierLp d vbond = 0 := by omega
+                rw [this]; simp
+
+/-- non-vacuity, and the round trip the seeded change C20-r7 broke: a verifier locks 0.1 % of an LP supply of 3000000,
+the dApp's bond (hence the LP supply of the lock formula) is then raised twentyfold, the verifier exits and the session is
+reset: it gets back the 3000 it locked, not the 0.1 % of the new supply -/
+example :
+    let o : Oper := { dapp := A, user := 2, executor := false, verifier := true, status := 3, bonded := 3000 }
+    let b : Bank := { bal := fun a d => if a = Acct.l2 ∧ d = lpOf alp then 5000 else 0, supply := fun _ => 0, tokReg := fun _ => false }
+    ((refundExiting b (lpOf alp) [o]).map fun b' => (b'.bal (.user 2) (lpOf alp), b'.bal .l2 (lpOf alp))) = some (3000, 2000) := by
+  decide
 
 end Sekai.Props.C20
